@@ -357,10 +357,31 @@ def r18_5(ctx: Ctx):
     return out
 
 
+def r18_6(ctx: Ctx):
+    """R18.6 the flag is read only by the stepping loop and the flag round: sleeping demes stay candidates for sprouting (which is what wakes them)."""
+    obs = []
+    allowed = {ctx.prog.own_method("DemeTree", "run_metaepoch").qualname, ctx.prog.own_method("DemeTree", "run_sprout").qualname}
+    n = 0
+    for f in ctx.prog.all_functions():
+        if f.name == "<module>":
+            continue
+        for x in body_walk(f.node):
+            if isinstance(x, ast.Attribute) and x.attr == "_hibernating" and isinstance(x.ctx, ast.Load):
+                n += 1
+                ok = f.qualname in allowed
+                obs.append(ctx.ob("R18.6", f, x, status=OK if ok else VIOLATION, detail="flag read by the tree's stepping / flag round" if ok else f"{f.short} reads `_hibernating`: a sleeping deme is treated differently outside the stepping loop (e.g. no longer offered as a sprout parent, so nothing can wake it and the run can stall)"))
+            if isinstance(x, ast.Call) and norm(x.func) == "getattr" and len(x.args) >= 2 and isinstance(x.args[1], ast.Constant) and x.args[1].value == "_hibernating":
+                obs.append(ctx.ob("R18.6", f, x, status=VIOLATION, detail=f"{f.short} reads the hibernation flag through getattr"))
+    if n == 0:
+        raise AnalysisError("no read of _hibernating found")
+    return obs
+
+
 RULES = [
     ("R18.1", r18_1, 1),
     ("R18.2", r18_2, 3),
     ("R18.3", r18_3, 5),
     ("R18.4", r18_4, 1),
     ("R18.5", r18_5, 10),
+    ("R18.6", r18_6, 2),
 ]
